@@ -356,3 +356,14 @@ Proof.
   - cbn [bind] in H. destruct (read_list_items (read_item f) (S (length r)) r []) as [[vals rs]|] eqn:Er; [|discriminate]. cbn [bind] in H.
     injection H as _ <-. apply (Hl r (ex_intro _ [] eq_refl) vals Er).
 Qed.
+
+(* the whole text: from_sml returns an item only if ALL tokens of the text are that one item - they start with '<' and a known type
+   name and the last token of the text is its closing '>' (nothing behind it: no second item, no unclosed bracket, no literal left open) *)
+Theorem from_sml_whole_text src v : from_sml src = Ok v ->
+  (exists ty r u c, sml_tokens src = [c_lt] :: ty :: r /\ upper ty = Ok u /\ class_of_name u = Some c) /\
+  (exists pre, sml_tokens src = (pre ++ [[c_gt]])%list).
+Proof.
+  unfold from_sml. destruct (read_item _ _) as [[v' rest]|e] eqn:E; cbn [bind fst snd]; [|discriminate].
+  destruct rest as [|x rest]; [|discriminate]. intros _.
+  destruct (read_item_accepts_only _ _ _ _ E) as [A B]. split; [exact A|exact B].
+Qed.
